@@ -4,7 +4,7 @@
  *                                   [ retry ret <rc> size <reported> buf <hex>]   (after UV_ENOBUFS, with the reported size)
  *                                   | <true value(s) read from the OS by other means, hex>
  * setup commands (answer `ok` / `err <n>`): sentinel, setenv, unsetenv, chdir, mkcd, sethostname, settitle,
- * bind, autobind, unbound, connect, fsevent, fspoll, setname.
+ * bind, autobind, unbound, socketpair, connect, fsevent, fspoll, setname.
  * An overrun is a SIGSEGV on the guard page (the process dies on that input); an underrun is reported as UNDERRUN. */
 #include "uv.h"
 #include <stdio.h>
@@ -121,6 +121,7 @@ static int call(const char* name, const char* arg, unsigned char* b, size_t* siz
   if (!strcmp(name, "hostname")) return uv_os_gethostname(buf, size);
   if (!strcmp(name, "sockname")) return srv ? uv_pipe_getsockname(srv, buf, size) : 12345;
   if (!strcmp(name, "peername")) return cli ? uv_pipe_getpeername(cli, buf, size) : 12345;
+  if (!strcmp(name, "csockname")) return cli ? uv_pipe_getsockname(cli, buf, size) : 12345;   /* the connecting / second end: unnamed */
   if (!strcmp(name, "fsevent")) return fsev ? uv_fs_event_getpath(fsev, buf, size) : 12345;
   if (!strcmp(name, "fspoll")) return fspoll ? uv_fs_poll_getpath(fspoll, buf, size) : 12345;
   if (!strcmp(name, "ifname")) return uv_if_indextoname(atoi(arg), buf, size);
@@ -156,6 +157,7 @@ static void truth(const char* name, const char* arg, const char* arg2) {
   else if (!strcmp(name, "threadname")) read_file_first("/proc/thread-self/comm", '\n');
   else if (!strcmp(name, "sockname")) true_sockname(srv, 0);
   else if (!strcmp(name, "peername")) true_sockname(cli, 1);
+  else if (!strcmp(name, "csockname")) true_sockname(cli, 0);
   else if (!strcmp(name, "fsevent") || !strcmp(name, "fspoll")) puthex(namebuf, namelen);
   else if (!strcmp(name, "ifname") || !strcmp(name, "ifiid")) {
     struct ifreq ifr; int fd = socket(AF_INET, SOCK_DGRAM, 0);
@@ -240,6 +242,16 @@ int main(int argc, char** argv) {
       drop_pipes();
       srv = malloc(sizeof *srv); uv_pipe_init(loop, srv, 0);
       answer(-uv_pipe_open(srv, fd));
+    }
+    else if (!strcmp(w[0], "socketpair")) {   /* two unnamed, connected ends: srv and cli */
+      int sv[2]; int r;
+      drop_pipes();
+      if (socketpair(AF_UNIX, SOCK_STREAM, 0, sv) != 0) { answer(errno); continue; }
+      srv = malloc(sizeof *srv); uv_pipe_init(loop, srv, 0);
+      cli = malloc(sizeof *cli); uv_pipe_init(loop, cli, 0);
+      r = uv_pipe_open(srv, sv[0]);
+      if (r == 0) r = uv_pipe_open(cli, sv[1]);
+      answer(-r);
     }
     else if (!strcmp(w[0], "connect")) {   /* to the name of the last `bind` (true server name read back from the OS) */
       struct sockaddr_un sa; socklen_t len = sizeof sa; uv_os_fd_t fd; uv_connect_t* req = malloc(sizeof *req); int r, i;
